@@ -72,9 +72,10 @@ type wRow struct {
 	Signers   []string `json:"signers"`
 	Ctx       []string `json:"ctx"`
 	Due       bool     `json:"due"`
-	Mbv       []uint64 `json:"mbv"` // commitDpos: epoch length, two 16-bit limbs
-	Vhv       []uint64 `json:"vhv"` // height at which the current epoch began
-	Hv        []uint64 `json:"hv"`  // height of the call
+	Path      string   `json:"path"` // "verified": addresses cached by VerifyTransaction; "decoded": fresh deserialized copy
+	Mbv       []uint64 `json:"mbv"`  // commitDpos: epoch length, two 16-bit limbs
+	Vhv       []uint64 `json:"vhv"`  // height at which the current epoch began
+	Hv        []uint64 `json:"hv"`   // height of the call
 	Expect    string   `json:"expect"`
 	Witnessed bool     `json:"witnessed"`
 }
@@ -368,6 +369,10 @@ func (w *wWorld) buildTx(m *wMethod, args []byte, row *wRow, nonce uint32) *type
 			tx, err = ledgerkit.MultiSignTx(tx, keys, uint16(mOp), w.vals[:mOp])
 		case "opweak": // the right keys with a smaller threshold: another address
 			tx, err = ledgerkit.MultiSignTx(tx, keys, uint16(mOp-1), w.vals[:mOp-1])
+		case "op1": // 1-of-n over the validators' keys, signed by one validator
+			tx, err = ledgerkit.MultiSignTx(tx, keys, 1, w.vals[:1])
+		case "op4": // n-of-n, signed by all
+			tx, err = ledgerkit.MultiSignTx(tx, keys, uint16(n), w.vals)
 		case "opold": // the operator address of another validator set (v1, v2, v3, peer5)
 			old := []*account.Account{w.vals[1], w.vals[2], w.vals[3], w.extra}
 			var oldKeys []keypair.PublicKey
@@ -422,6 +427,13 @@ func runWitnessRow(i int, row *wRow, ms map[string]*wMethod) wResult {
 		w.sb.Height = limbs(row.Hv)
 	}
 	tx := w.buildTx(m, args, row, uint32(i))
+	if row.Path == "decoded" {
+		// what a node executes when the transaction arrives inside a synced block: decoded from bytes, never verified again
+		var e error
+		if tx, e = ledgerkit.Reparse(tx); e != nil {
+			panic(e)
+		}
+	}
 	addrs, err := tx.GetSignatureAddresses()
 	if err != nil {
 		panic(err)
